@@ -27,7 +27,7 @@ fn any_model() -> FittedIsotonicRegression<f32> {
     FittedIsotonicRegression { regressor: Array1::from(vec![k[0], k[1], k[2]]), response: Array1::from(vec![v[0], v[1], v[2]]) }
 }
 
-// @unit class=bounded tier=thorough mem=light bound="rows=2,knots=3,values integer in [-8;8],queries k/2" timeout=2400 fns=linfa_linear::isotonic::FittedIsotonicRegression::predict_inplace,linfa_linear::isotonic::FittedIsotonicRegression::default_target
+// @unit class=bounded tier=thorough mem=light bound="rows=2,knots=3,small ints" timeout=2400 fns=linfa_linear::isotonic::FittedIsotonicRegression::predict_inplace,linfa_linear::isotonic::FittedIsotonicRegression::default_target
 #[kani::proof]
 #[kani::unwind(6)]
 #[kani::stub(alloc::fmt::format, fmt_stub)]
@@ -49,7 +49,7 @@ fn c03_isotonic_rowwise_n2() {
 }
 
 // empty batch and single row
-// @unit class=bounded tier=thorough mem=light bound="rows=0..1,knots=3,values integer in [-8;8],queries k/2" timeout=600 fns=linfa_linear::isotonic::FittedIsotonicRegression::predict_inplace,linfa_linear::isotonic::FittedIsotonicRegression::default_target
+// @unit class=bounded tier=thorough mem=light bound="rows=0..1,knots=3,small ints" timeout=600 fns=linfa_linear::isotonic::FittedIsotonicRegression::predict_inplace,linfa_linear::isotonic::FittedIsotonicRegression::default_target
 #[kani::proof]
 #[kani::unwind(6)]
 #[kani::stub(alloc::fmt::format, fmt_stub)]
